@@ -33,6 +33,8 @@ func init() {
 				Edits: []Edit{{File: "driver/network/privilege.go", Old: "\t\tif privLevel.PreviousPriv != \"\" {", New: "\t\tif privLevel.PreviousPriv != \"\" && privLevel.Escalate != \"\" {"}}},
 			{ID: "C04-unknown-level-class", Desc: "undeterminable level reported as an operation error", Rule: "C04/error-classes",
 				Edits: []Edit{{File: "driver/network/acquirepriv.go", Old: "\t\t\tutil.ErrPrivilegeError, currentPrompt,", New: "\t\t\tutil.ErrOperationError, currentPrompt,"}}},
+			{ID: "C04-refuses-unlinked-level", Desc: "AcquirePriv also refuses known levels without graph neighbours", Rule: "C04/refuse-unknown-first",
+				Edits: []Edit{{File: "driver/network/acquirepriv.go", Old: "if _, ok := d.PrivilegeLevels[target]; !ok {", New: "if _, ok := d.PrivilegeLevels[target]; !ok || len(d.privGraph[target]) == 0 {"}}},
 			{ID: "C04-fromfile-skips-acquire", Desc: "SendCommandsFromFile skips the implicit acquire", Rule: "C04/acquire-before-send",
 				Edits: []Edit{{File: "driver/network/sendcommands.go", Old: "\tf string,\n\topts ...util.Option,\n) (*response.MultiResponse, error) {\n\tif d.CurrentPriv != d.DefaultDesiredPriv {", New: "\tf string,\n\topts ...util.Option,\n) (*response.MultiResponse, error) {\n\tif d.CurrentPriv != d.DefaultDesiredPriv && f == \"\" {"}}},
 			{ID: "C04-unknown-only-empty", Desc: "unknown-target refusal only for the empty name", Rule: "C04/refuse-unknown-first",
@@ -62,7 +64,7 @@ func init() {
 func runC04(c *Ctx, r *Report) {
 	r.Rule("C04/error-classes", "each failure site named by the property wraps the sentinel the property names (timeout / auth / connection / privilege / NETCONF / operation / platform error)", 2)
 	checkErrorClasses(c, r, "C04")
-	r.Rule("C04/refuse-unknown-first", "an unknown target is refused with ErrPrivilegeError before anything that can reach the transport", 2)
+	r.Rule("C04/refuse-unknown-first", "an unknown target is refused with ErrPrivilegeError before anything that can reach the transport, and only an unknown target is", 3)
 	r.Rule("C04/level-detection", "a level is a candidate exactly when its pattern matches the prompt and no not-contains string occurs in it (substring); the two list helpers are exists-loops", 3)
 	r.Rule("C04/op-options-applied", "the per-operation option constructors (network, generic, channel) apply the full list in order and leave the loop only on a non-ignored error", 3)
 	r.Rule("C04/graph-links", "buildPrivGraph links every level with its previous level in both directions, unconditionally", 2)
@@ -143,6 +145,52 @@ func runC04(c *Ctx, r *Report) {
 				okErr = retWrapsOnBlock(unknown, "ErrPrivilegeError")
 			}
 			r.Check(okErr, "C04/refuse-unknown-first", "unknown target -> ErrPrivilegeError", c.Pos(acq.Pos()), "", "an unknown target level is not refused with an error wrapping ErrPrivilegeError on the plain membership test")
+			// ... and ONLY an unknown target is refused here: before the acquire loop starts, every return is entered
+			// through the ok==false edge of the membership test and nothing else
+			var extra []string
+			for _, b := range acq.Blocks {
+				n := len(b.Instrs)
+				if n == 0 {
+					continue
+				}
+				if _, isRet := b.Instrs[n-1].(*ssa.Return); !isRet || !retWrapsOnBlock(b, "ErrPrivilegeError") {
+					continue
+				}
+				// refusal blocks of the entry test: not inside a loop, not dominated by an I/O call
+				afterIO := false
+				for _, ci := range callInstrs(acq) {
+					if isIO(ci) && dominatesInstr(ci, b.Instrs[0]) {
+						afterIO = true
+					}
+				}
+				if afterIO {
+					continue
+				}
+				for _, pr := range b.Preds {
+					cond := ifCond(pr)
+					v, neg := ssa.Value(nil), false
+					if cond != nil {
+						v, neg = unwrapNot(cond)
+					}
+					edgeIsOKFalse := false
+					if v == okVal {
+						falseSucc := pr.Succs[1]
+						if neg {
+							falseSucc = pr.Succs[0]
+						}
+						edgeIsOKFalse = falseSucc == b
+					}
+					if !edgeIsOKFalse {
+						what := "an unconditional edge"
+						if cond != nil {
+							what = cond.String()
+						}
+						extra = append(extra, what+" ("+c.Pos(firstPos(pr))+")")
+					}
+				}
+			}
+			r.Check(len(extra) == 0, "C04/refuse-unknown-first", "only an unknown target is refused", c.Pos(acq.Pos()), "the refusal is entered only from the membership test's not-found edge",
+				"a target that IS one of the configured levels can be refused up front as 'not a valid privilege level' -- the refusal is also entered on "+strings.Join(extra, ", ")+" (e.g. the only level of a one-level tree)")
 		}
 	}
 
